@@ -916,6 +916,19 @@ func genC14() {
 		add("dq-cache-node", strings.Join(c08DqNode(), "; "))
 		add("dq-cache-hit", "a clone of the stored set")
 		add("dq-cache-miss", "disqualifyDifference of the call's own map, stored under the key")
+		// one critical section: lookup, computation and store of concurrent calls cannot interleave
+		// (the model's Get is atomic; an entry is never visible before its set is complete)
+		unlocks := 0
+		ast.Inspect(dg.Body, func(n ast.Node) bool {
+			if c, ok := n.(*ast.CallExpr); ok && c14Text(c.Fun) == recv+".Unlock" {
+				unlocks++
+			}
+			return true
+		})
+		if !c08Locked(dg) || unlocks != 1 {
+			fail("%s: disqualifyCache.Get does not hold its mutex for the whole call (`%s.Lock(); defer %s.Unlock()` first, no other Unlock): an entry could be seen by a concurrent call before its set is complete", caches, recv, recv)
+		}
+		add("dq-cache-critical-section", "the whole call: Lock, defer Unlock first, no other Unlock")
 	}
 
 	var items []string
